@@ -155,13 +155,14 @@ Definition stuck (s : state) : state * out := (s, ODisabled).
 
 Section Gen.
 Variable raises : nat -> bool.
+Variable has_done : bool.      (* is a callback given (`self._done` truthy) *)
 Variable f : mfacts.
 
 (** a set-valued local of the monitor: only `done` *)
 Definition mon_set_local (e : pexpr) (s : state) : option (list nat) :=
   if is_local (mf_done f) e then Some (m_done s) else None.
 
-(** `if self._done:` -- the callback is given (ASSUMPTIONS of the property) *)
+(** `if self._done:` -- [has_done] (true: ASSUMPTIONS of the property; false: done=None, see the end) *)
 Definition done_atom (e : pexpr) : bool := match e with PSelf FDone => true | _ => false end.
 Definition closed_atom (e : pexpr) : bool := match e with PSelf FClosed => true | _ => false end.
 
@@ -237,7 +238,7 @@ Definition step_mon_gen (s : state) : state * out :=
       | None => stuck s
       end
   | MRel1 =>
-      match test1 done_atom (mf_guard f) true with
+      match test1 done_atom (mf_guard f) has_done with
       | Some true =>
           (with_lock_pc s None (match m_cbs s with [] => MAcq2 | _ => MCallback end), OAcc LockRelease [])
       | Some false => (with_lock_pc s None MAcq2, OAcc LockRelease [])
@@ -311,7 +312,14 @@ End Gen.
 
 Definition step_mon_ast (raises : nat -> bool) (s : state) : state * out :=
   match monitor_facts (pm_body monitor_ast) with
-  | Some f => step_mon_gen raises f s
+  | Some f => step_mon_gen raises true f s
+  | None => stuck s
+  end.
+
+(** the same with NO callback (`done=None`, the default of __init__) *)
+Definition step_mon_ast_nocb (raises : nat -> bool) (s : state) : state * out :=
+  match monitor_facts (pm_body monitor_ast) with
+  | Some f => step_mon_gen raises false f s
   | None => stuck s
   end.
 
@@ -559,4 +567,116 @@ Proof.
   intros raises ls. induction ls as [| l r IH]; intro s; [reflexivity|].
   cbn [run_from_ast run_from]. rewrite skel_step. destruct (step raises s l) as [s' o].
   rewrite IH. reflexivity.
+Qed.
+
+(** ================================================================== no callback (done=None)
+
+    `if self._done:` false: the `for d in done` loop is skipped.  [step_mon_nocb] is the model's monitor
+    step with the ONE difference that after the scan section the monitor goes to the exit check. *)
+Definition step_mon_nocb (raises : nat -> bool) (s : state) : state * out :=
+  match m_pc s with
+  | MRel1 => (with_lock_pc s None MAcq2, OAcc LockRelease [])
+  | _ => step_mon raises s
+  end.
+
+(** for EVERY state: the step computed from the regenerated leaves with no callback given *)
+Theorem skel_nocb_step : forall raises s, step_mon_ast_nocb raises s = step_mon_nocb raises s.
+Proof.
+  intros raises s. unfold step_mon_ast_nocb.
+  set (F := monitor_facts (pm_body monitor_ast)). vm_compute in F. subst F. cbv beta iota.
+  unfold step_mon_gen, step_mon_nocb, step_mon, stuck, final_exn, mon_set_local.
+  destruct (m_pc s); cbn; try reflexivity.
+  all: try (destruct (is_alive (regs s t)); reflexivity).
+  all: try (destruct (obj (heap s) r); reflexivity).
+  all: try (destruct (closed s); reflexivity).
+  all: try (destruct (m_exc s); reflexivity).
+Qed.
+
+(** the scan and the rebuild are untouched: the scanned thread goes into `done` iff it is NOT alive, and
+    the set stored is (the loaded set) minus exactly `done` -- the ended threads leave _active *)
+Theorem skel_nocb_removes_ended : forall raises s,
+  (forall t, m_pc s = MIsAlive t ->
+     m_done (fst (step_mon_ast_nocb raises s)) = (if is_alive (regs s t) then m_done s else ins t (m_done s))
+     /\ m_pc (fst (step_mon_ast_nocb raises s)) = MIterNext)
+  /\ (forall r, m_pc s = MSetDiff r ->
+     heap (fst (step_mon_ast_nocb raises s)) = heap s ++ [diff (obj (heap s) r) (m_done s)]
+     /\ m_pc (fst (step_mon_ast_nocb raises s)) = MStore (List.length (heap s)))
+  /\ (forall n, m_pc s = MStore n -> active (fst (step_mon_ast_nocb raises s)) = n).
+Proof.
+  intros raises s. rewrite skel_nocb_step. unfold step_mon_nocb, step_mon.
+  repeat split; intros; rewrite H; cbn; try reflexivity; destruct (is_alive (regs s t)); reflexivity.
+Qed.
+
+(** the only ways out of the loop are the model's: the monitor ends only from the `break` of the exit check
+    (reached only with _closed read True, after the set was found empty under the same lock) or from the
+    exception of the scan; so join() in close() -- and close() -- still waits for that *)
+Theorem skel_nocb_exit_path : forall raises s,
+  let s' := fst (step_mon_ast_nocb raises s) in
+  ((exists e, m_pc s' = MExited e) -> m_pc s = MRelBreak \/ m_pc s = MRelExc \/ exists e, m_pc s = MExited e)
+  /\ (m_pc s' = MRelBreak -> (m_pc s = MLoadClosed /\ closed s = true) \/ m_pc s = MRelBreak)
+  /\ (m_pc s' = MLoadClosed -> (exists r, m_pc s = MTruth r /\ obj (heap s) r = []) \/ m_pc s = MLoadClosed).
+Proof.
+  intros raises s. rewrite skel_nocb_step. unfold step_mon_nocb, step_mon, mon_exit.
+  destruct (m_pc s) eqn:E; cbn;
+    repeat match goal with
+           | |- context [match ?x with _ => _ end] => destruct x eqn:?; cbn
+           end;
+    repeat split; intros; try discriminate; try (destruct H; discriminate);
+    try (rewrite E in H; first [discriminate | destruct H; discriminate]); eauto 6.
+Qed.
+
+Definition label_is_mon (l : label) : bool := match l with Step Mon => true | _ => false end.
+
+(** the labelled step / runs of the system without a callback *)
+Definition step_nocb (raises : nat -> bool) (s : state) (l : label) : state * out :=
+  match l with
+  | Step Mon => step_mon_ast_nocb raises s
+  | _ => step_ast raises s l
+  end.
+
+Fixpoint run_from_nocb (raises : nat -> bool) (s : state) (ls : list label) : state * list out :=
+  match ls with
+  | [] => (s, [])
+  | l :: r => let '(s', o) := step_nocb raises s l in
+              let '(s'', os) := run_from_nocb raises s' r in (s'', o :: os)
+  end.
+
+Definition is_cb_out (o : out) : bool :=
+  match o with OAcc Callback _ => true | OAcc _ evs => existsb (fun e => match e with EvCb _ _ => true | _ => false end) evs | _ => false end.
+
+Lemma step_other_pc : forall raises s l, l <> Step Mon ->
+  m_pc (fst (step raises s l)) = m_pc s /\ is_cb_out (snd (step raises s l)) = false.
+Proof.
+  intros raises s l Hl. destruct l as [t | [ | | t] | t | ]; try congruence; cbn; unfold step_closer, step_reg;
+    repeat match goal with
+           | |- context [match ?x with _ => _ end] => destruct x eqn:?; cbn
+           end; split; first [reflexivity | congruence].
+Qed.
+
+Lemma step_nocb_inv : forall raises s l, m_pc s <> MCallback ->
+  m_pc (fst (step_nocb raises s l)) <> MCallback /\ is_cb_out (snd (step_nocb raises s l)) = false.
+Proof.
+  intros raises s l H. destruct (label_is_mon l) eqn:Em.
+  - destruct l as [t | [ | | t] | t | ]; try discriminate. cbn [step_nocb].
+    rewrite skel_nocb_step. unfold step_mon_nocb, step_mon, mon_exit.
+    destruct (m_pc s) eqn:E; try congruence; cbn;
+      repeat match goal with
+             | |- context [match ?x with _ => _ end] => destruct x eqn:?; cbn
+             end; split; first [reflexivity | congruence | discriminate].
+  - assert (Hl : l <> Step Mon) by (intro; subst; discriminate).
+    assert (step_nocb raises s l = step raises s l) as ->.
+    { destruct l as [t | [ | | t] | t | ]; try congruence; cbn [step_nocb]; apply skel_step. }
+    destruct (step_other_pc raises s l Hl) as [-> ?]. auto.
+Qed.
+
+(** in EVERY run from the initial state no callback is invoked and the monitor never reaches the call *)
+Theorem skel_nocb_never_calls : forall raises ls s, m_pc s <> MCallback ->
+  m_pc (fst (run_from_nocb raises s ls)) <> MCallback
+  /\ forallb (fun o => negb (is_cb_out o)) (snd (run_from_nocb raises s ls)) = true.
+Proof.
+  intros raises ls. induction ls as [| l r IH]; intros s H; [split; [exact H | reflexivity]|].
+  cbn [run_from_nocb]. destruct (step_nocb_inv raises s l H) as [H1 H2].
+  destruct (step_nocb raises s l) as [s' o]. cbn in H1, H2.
+  specialize (IH s' H1). destruct (run_from_nocb raises s' r) as [s'' os]. cbn in *.
+  destruct IH as [I1 I2]. split; [exact I1|]. rewrite H2. exact I2.
 Qed.
